@@ -47,6 +47,14 @@ def run(tier):
             k = sorted(runs)[0]
             rep.sample({"source": "random", "steps": [{"argv": e["argv"], "now": e["now"]} for e in runs[k][1:12]]})
         os.remove(tr)
+    # systematic families: a key with a TTL stops existing in every way its type offers and its name is reused by a
+    # command that must not give it a TTL; sorted sets with tied scores under every inclusive / exclusive bound
+    fam = kc.lifecycle_scenarios() + kc.zset_tie_scenarios(vlib.seed(), 200 if thorough else 40)
+    p = vlib.write_ndjson(os.path.join(wd, "families.ndjson"), fam)
+    tr = os.path.join(wd, "families.trace.ndjson")
+    vlib.vh(["ks", "replay", p, "--out", tr])
+    kc.validate(rep, wd, tr, "lifecycle_and_ties")
+    os.remove(tr)
     # many deadlines coming due between two commands (active expiry at scale)
     tr = os.path.join(wd, "mass.ndjson")
     vlib.vh(["ks", "mass", "--tier", tier, "--out", tr])
